@@ -25,6 +25,9 @@ type ServeScenario struct {
 	Letters []ServeLetter `json:"letters"`
 	Handler bool          `json:"handler"`
 	Slow    bool          `json:"slow"` // the handler yields before returning
+	// Reply: the handler uses the client itself (a request/response application publishes its QoS 0 answer from inside
+	// the handler); the handler must come back and the acknowledgement of the message must follow
+	Reply bool `json:"reply,omitempty"`
 	// Batch: several scenarios in one line (amortises process/JSON overhead)
 	Batch []ServeScenario `json:"batch,omitempty"`
 }
@@ -75,6 +78,11 @@ func runServe(sc *ServeScenario) *ServeResult {
 				runtime.Gosched()
 				time.Sleep(200 * time.Microsecond)
 			}
+			if sc.Reply {
+				rctx, rcancel := context.WithTimeout(ctx, time.Second)
+				_ = cli.Publish(rctx, &mqtt.Message{Topic: "reply", QoS: mqtt.QoS0, Payload: []byte("r")})
+				rcancel()
+			}
 			w.Rec.Emit(netsim.Event{"e": "Handled", "phase": "leave", "tag": tag})
 		}))
 	}
@@ -115,8 +123,8 @@ func runServe(sc *ServeScenario) *ServeResult {
 			}
 			res.TL = append(res.TL, []interface{}{k, e["tag"]})
 		case "Write":
-			if !started || e["p"] == "PINGREQ" || e["p"] == "CONNECT" {
-				continue
+			if !started || e["p"] == "PINGREQ" || e["p"] == "CONNECT" || e["p"] == "PUBLISH" {
+				continue // (PUBLISH: the handler's own reply, not an acknowledgement)
 			}
 			res.TL = append(res.TL, []interface{}{"out", e["p"], e["id"]})
 		case "Close":
